@@ -90,6 +90,8 @@ type FuncContract struct {
 	Name      string // fnspec name
 	ThreadRoot bool
 	AssumeRanges bool
+	FPMonotone bool
+	FPInexact bool
 }
 
 type AssertHook struct {
@@ -220,7 +222,7 @@ var clauseKeywords = map[string]bool{
 	"props": true, "requires": true, "ensures": true, "onpanic": true, "modifies": true, "nopanic": true,
 	"maypanic": true, "recovers": true, "loop": true, "dyncall": true, "ghost": true, "assert": true,
 	"sweep": true, "trusted": true, "unreachable": true, "note": true, "implements": true, "arith": true,
-	"panics": true, "inv": true, "hyp": true, "goal": true, "vars": true, "thread-root": true, "assume-ranges": true,
+	"panics": true, "inv": true, "hyp": true, "goal": true, "vars": true, "thread-root": true, "assume-ranges": true, "fp-monotone": true, "fp-inexact": true,
 }
 
 func firstWord(s string) (string, string) {
@@ -523,6 +525,10 @@ func (cs *ContractSet) parseClause(fc *FuncContract, c rawLine, path string) err
 		fc.ThreadRoot = true
 	case "assume-ranges":
 		fc.AssumeRanges = true
+	case "fp-monotone":
+		fc.FPMonotone = true
+	case "fp-inexact":
+		fc.FPInexact = true
 	case "note":
 		fc.Notes = append(fc.Notes, body)
 	case "arith":
@@ -653,6 +659,20 @@ func (cs *ContractSet) parseClause(fc *FuncContract, c rawLine, path string) err
 
 func parseGhostStmt(st string, line int) (GhostStmt, error) {
 	gs := GhostStmt{Text: st, Line: line}
+	if strings.HasPrefix(st, "rewrite ") {
+		// rewrite <local> = <expr>: prove local == expr, then use expr as the local's term from here on
+		label, props, t := stripTags(st[len("rewrite "):])
+		eq := indexTopAssign(t)
+		if eq < 0 {
+			return gs, fmt.Errorf("bad rewrite statement %q", st)
+		}
+		v, err := parseSpecExpr(strings.TrimSpace(t[eq+1:]))
+		if err != nil {
+			return gs, err
+		}
+		gs.Kind, gs.Target, gs.Value, gs.Label, gs.Props, gs.Text = "rewrite", strings.TrimSpace(t[:eq]), v, label, props, t
+		return gs, nil
+	}
 	if strings.HasPrefix(st, "assume ") {
 		_, _, t := stripTags(st[len("assume "):])
 		e, err := parseSpecExpr(t)
